@@ -529,12 +529,27 @@ void scan_deps(const std::string& orig_portname, std::string cur_portname,
         const Port* port = is_parent
             ? ports.apropos((cur_portname + '/').c_str())
             : port_of_path(ports, cur_portname, last_slash);
-        if(port)
+        // the table this port stands in can be enabled as a whole by one of
+        // its own ports (rSelf(..., rEnabledBy(x))): every port of the table
+        // waits for x, except x itself
+        const Ports* table = &ports;
+        if(last_slash > 0)
+        {
+            const Port* dir =
+                ports.apropos(cur_portname.substr(0, last_slash+1).c_str());
+            table = dir ? dir->ports : nullptr;
+        }
+        const Port* self = table ? (*table)["self:"] : nullptr;
+        const char* self_enabled_by = self ? self->meta()["enabled by"] : nullptr;
+        if(!self_enabled_by ||
+           !cur_portname.compare(last_slash+1, std::string::npos, self_enabled_by))
+            self = nullptr;
+        for(const Port* meta_port : {port, self}) if(meta_port)
         {
             const char* dep_types[3] = { "enabled by", "depends", "default depends" };
             for(const char* dep_type : dep_types)
             {
-                for(const char* enabled_by = port->meta()[dep_type]; enabled_by != NULL; enabled_by = strchr(enabled_by+1, ','))
+                for(const char* enabled_by = meta_port->meta()[dep_type]; enabled_by != NULL; enabled_by = strchr(enabled_by+1, ','))
                 {
                     if(*enabled_by==',')
                         ++enabled_by;
